@@ -42,6 +42,7 @@ structure Stats where
   distinct : Nat := 0               -- distinct cases with at least one replayed record
   dumped : Nat := 0                 -- failed cases echoed with CASELINE records
   complete : Bool := false          -- the harness wrote its `# complete` trailer
+  seenKeys : Std.HashSet String := {}   -- PROPFAIL keys whose case has been echoed
 
 structure Cur (σ : Type) where
   st : Option σ := none      -- none: no open case
@@ -51,11 +52,17 @@ structure Cur (σ : Type) where
   hash : UInt64 := 7
   nrec : Nat := 0
   lines : List String := []  -- the case's lines, newest first (kept for the failure echo)
+  keys : List String := []   -- PROPFAIL keys raised in this case
+  diffed : Bool := false     -- a DIFF was already reported for this case (later ones are not repeated)
 
 def bump (m : Std.HashMap String Nat) (k : String) : Std.HashMap String Nat :=
   if k.isEmpty then m else m.insert k (m.getD k 0 + 1)
 
 def sp (xs : List String) : String := " ".intercalate xs
+
+/-- the `key=<K>` of a PROPFAIL text ("" when absent) -/
+def keyOf (pf : String) : String :=
+  ((pf.splitOn " ").findSome? fun t => if t.startsWith "key=" then some (t.drop 4).toString else none).getD ""
 
 def mixHash (a b : UInt64) : UInt64 := (a ^^^ b) * 1099511628211 + 0x9e3779b97f4a7c15
 
@@ -87,9 +94,12 @@ partial def loop (M : Machine) (h : IO.FS.Stream) (ln : Nat) (cur : Cur M.σ) (s
       if cur.bad then
         IO.println s!"CASE {stats.cases} FAIL first={cur.first} last={last}"
         let mut stats := stats
-        if stats.dumped < 25 then
+        -- echo the case: the first 25 failed cases, and any later one that shows a new PROPFAIL key
+        let newKey := cur.keys.any (fun k => !stats.seenKeys.contains k)
+        if stats.dumped < 25 ∨ (newKey ∧ stats.dumped < 400) then
           for l in cur.lines.reverse do IO.println s!"CASELINE {stats.cases} {l}"
-          stats := { stats with dumped := stats.dumped + 1 }
+          stats := { stats with dumped := stats.dumped + 1,
+                                seenKeys := cur.keys.foldl (fun acc k => acc.insert k) stats.seenKeys }
         pure ({}, { stats with cases := stats.cases + 1, failed := stats.failed + 1 })
       else
         pure ({}, { stats with cases := stats.cases + 1 })
@@ -107,11 +117,14 @@ partial def loop (M : Machine) (h : IO.FS.Stream) (ln : Nat) (cur : Cur M.σ) (s
         for pf in out.propfails do
           IO.println s!"CASE {stats.cases} PROPFAIL line={ln} {pf}"
           stats := { stats with propfails := stats.propfails + 1 }
-          cur := { cur with bad := true }
-        if hasObs ∧ out.obs ≠ rhs then
+          cur := { cur with bad := true, keys := keyOf pf :: cur.keys }
+        if hasObs ∧ out.obs ≠ rhs ∧ !cur.diffed then
+          -- The model no longer follows the implementation. The first disagreement of a case is
+          -- reported; the case is still replayed to its end so that the monitors, which judge the
+          -- implementation's observations, keep running (later DIFFs of the case are not repeated).
           IO.println s!"CASE {stats.cases} DIFF line={ln} op={sp (kind :: lhs)} model={sp out.obs} impl={sp rhs}"
           stats := { stats with diffs := stats.diffs + 1 }
-          cur := { cur with bad := true, dead := true, st := none }
+          cur := { cur with bad := true, diffed := true }
         pure (cur, stats)
     match rest with
     | "cfg" :: args =>
@@ -127,7 +140,7 @@ partial def loop (M : Machine) (h : IO.FS.Stream) (ln : Nat) (cur : Cur M.σ) (s
       loop M h ln cur stats
     | "propfail" :: args =>
       IO.println s!"CASE {stats.cases} PROPFAIL line={ln} side=impl {sp args}"
-      loop M h ln { cur with bad := true } { stats with propfails := stats.propfails + 1 }
+      loop M h ln { cur with bad := true, keys := keyOf (sp args) :: cur.keys } { stats with propfails := stats.propfails + 1 }
     | "one" :: args =>
       match M.init [] with
       | none =>
